@@ -172,13 +172,13 @@ func ruleR19_1(c *Check) {
 					if be == p.probe {
 						okg = true
 					}
-					// len(f) < 2
-					if be.Op == token.LSS || be.Op == token.LEQ {
-						if call, ok := unparen(be.X).(*ast.CallExpr); ok {
-							if id, ok := unparen(call.Fun).(*ast.Ident); ok && id.Name == "len" {
-								okg = true
-							}
-						}
+					// len(f) < 2 (either operand order)
+					isLenCall := func(e ast.Expr) bool {
+						call, ok := unparen(e).(*ast.CallExpr)
+						return ok && isBuiltin(w, call, "len")
+					}
+					if op, ok := w.cmpRoles(be, g.Val, isLenCall, func(e ast.Expr) bool { _, isC := w.constInt(e); return isC }); ok && (op == token.LSS || op == token.LEQ) {
+						okg = true
 					}
 				}
 			}
@@ -329,13 +329,26 @@ func ruleR19_2(c *Check) {
 	}
 	// clamp: builder caps k at 30; prober returns true for k > 30
 	capOK := false
+	// (whatever the spelling — if, switch case, operands swapped: an assignment of the constant 30
+	// that is guarded by `x > 30` for the variable assigned)
 	fb.walk(func(n ast.Node) bool {
-		if is, ok := n.(*ast.IfStmt); ok {
-			if be, ok := unparen(is.Cond).(*ast.BinaryExpr); ok && be.Op == token.GTR {
-				if v, ok := w.constInt(be.Y); ok && v == 30 {
-					capOK = true
-				}
-			}
+		as, ok := n.(*ast.AssignStmt)
+		if !ok || len(as.Lhs) != 1 || len(as.Rhs) != 1 {
+			return true
+		}
+		if v, isC := w.constInt(as.Rhs[0]); !isC || v != 30 {
+			return true
+		}
+		lid, ok := unparen(as.Lhs[0]).(*ast.Ident)
+		if !ok {
+			return true
+		}
+		isVar := func(e ast.Expr) bool { id, ok := unparen(e).(*ast.Ident); return ok && w.Use(id) == w.Use(lid) }
+		if op, g := w.guardRel(w.Guards(fb, as), isVar, w.isConst(30), false); g != nil && op == token.GTR {
+			capOK = true
+		}
+		if op, g := w.guardRel(w.Guards(fb, as), isVar, w.isConst(31), false); g != nil && op == token.GEQ {
+			capOK = true
 		}
 		return true
 	})
@@ -443,8 +456,19 @@ func ruleR19_3(c *Check) {
 		rs := e.Node.(*ast.ReturnStmt)
 		x := unparen(rs.Results[0])
 		if tv := w.Info.Types[x]; tv.Value != nil {
-			okv := tv.Value.String() == "false" && HasGuard(w.Guards(d, rs), false, func(e ast.Expr) bool { return w.fieldOf(e) == hb }) != nil
-			r.Check(okv, d, "no filter means 'may contain'", rs, "constant result not under !hasBloomFilter, or true")
+			gs := w.Guards(d, rs)
+			isMC := func(e ast.Expr) bool { return w.isCallTo(w.Origin(d, e), mc) }
+			noFilter := HasGuard(gs, false, func(e ast.Expr) bool { return w.fieldOf(e) == hb }) != nil
+			switch tv.Value.String() {
+			case "false":
+				// no filter, or the filter says "may contain"
+				okv := noFilter || HasGuard(gs, true, isMC) != nil
+				r.Check(okv, d, "no filter means 'may contain'", rs, "`false` returned neither under !hasBloomFilter nor under MayContain")
+			default:
+				// "does not have" only when the filter itself said so
+				okv := HasGuard(gs, false, isMC) != nil
+				r.Check(okv, d, "answer is the negation of MayContain", rs, "`true` returned without MayContain having answered false")
+			}
 			continue
 		}
 		u, ok := x.(*ast.UnaryExpr)
@@ -468,12 +492,26 @@ func ruleR19_4(c *Check) {
 		}
 		n++
 		fromFile := false
-		ast.Inspect(w.Origin(o.SiteFn, as.Rhs[0]), func(m ast.Node) bool {
-			if call, ok := m.(*ast.CallExpr); ok && w.Callee(call) != nil && w.Callee(call).Name() == "BloomFilterBytes" {
-				fromFile = true
-			}
-			return true
-		})
+		var look func(e ast.Expr, depth int)
+		look = func(e ast.Expr, depth int) {
+			ast.Inspect(e, func(m ast.Node) bool {
+				switch x := m.(type) {
+				case *ast.CallExpr:
+					if w.Callee(x) != nil && w.Callee(x).Name() == "BloomFilterBytes" {
+						fromFile = true
+					}
+				case *ast.Ident:
+					// a local holding (part of) the expression
+					if depth < 3 {
+						if org := w.Origin(o.SiteFn, x); org != nil && unparen(org) != ast.Expr(x) {
+							look(org, depth+1)
+						}
+					}
+				}
+				return true
+			})
+		}
+		look(as.Rhs[0], 0)
 		r.Check(fromFile && !w.mentions(as.Rhs[0], bfp), o.SiteFn, "filter presence read from the table's index", as, "hasBloomFilter is assigned "+short(w, as.Rhs[0])+", which is not derived from the stored filter bytes")
 	}
 	r.Exists(n >= 1, nil, "hasBloomFilter assignment", nil, "Table.hasBloomFilter is never assigned")
@@ -626,8 +664,20 @@ func ruleR16_2(c *Check) {
 			// p.Offset must have been set from vlog.woffset() and the record is then written at that offset
 			root := cs.Caller
 			for _, st := range root.Sites(selStore(vpOff)) {
-				if as, ok := st.(*ast.AssignStmt); ok && w.isCallTo(rhsFor(w, as, vpOff), w.Func("badger.valueLog.woffset")) {
+				if as, ok := st.(*ast.AssignStmt); ok && w.isCallTo(w.Origin(root, rhsFor(w, as, vpOff)), w.Func("badger.valueLog.woffset")) {
 					okv = true
+				}
+			}
+		}
+		if !okv {
+			// a local holding vlog.woffset(), the same local the pointer's Offset is assigned from
+			if aid, isId := unparen(arg).(*ast.Ident); isId && w.isCallTo(w.Origin(cs.Caller, arg), w.Func("badger.valueLog.woffset")) {
+				for _, st := range cs.Caller.Sites(selStore(vpOff)) {
+					if as, ok := st.(*ast.AssignStmt); ok {
+						if rid, isR := unparen(rhsFor(w, as, vpOff)).(*ast.Ident); isR && w.Use(rid) == w.Use(aid) {
+							okv = true
+						}
+					}
 				}
 			}
 		}
@@ -1015,7 +1065,66 @@ func ruleR16_5(c *Check) {
 	r.Check(delivered, it, "entries delivered with the pointer at the same index", nil, "the delivery loop does not pass vptrs[i] with entries[i]")
 }
 
+// R16.6: WAL replay puts back every entry it is given, whole.
+func ruleR16_6(c *Check) {
+	w := c.W
+	r := c.Rule("R16.6", "E1+E4", 5, "memTable.replayFunction: every entry the log iteration delivers is put into the skiplist (every exit of the replay callback follows Skiplist.Put of the entry's key; nothing — expiry, delete marker, version — makes it skip one), with Value, Meta, UserMeta and ExpiresAt taken from the entry",
+		"a version left out of the rebuilt memtable — an expired one, say, that 'can never be read again' — stops shadowing the older version of its key that was already flushed: after recovery the older value is back")
+	f := w.F("badger.memTable.replayFunction")
+	var cb *Fn
+	for _, l := range f.Lits {
+		cb = l
+	}
+	if cb == nil {
+		panic(anchorError{"replay callback of memTable.replayFunction"})
+	}
+	put := w.Func("skl.Skiplist.Put")
+	var param *types.Var
+	if cb.Type.Params != nil && len(cb.Type.Params.List) >= 1 && len(cb.Type.Params.List[0].Names) == 1 {
+		param, _ = w.Info.Defs[cb.Type.Params.List[0].Names[0]].(*types.Var)
+	}
+	if param == nil {
+		panic(anchorError{"entry parameter of the replay callback"})
+	}
+	isEntry := func(e ast.Expr) bool {
+		se, ok := unparen(e).(*ast.SelectorExpr)
+		if !ok {
+			return false
+		}
+		id, ok := unparen(se.X).(*ast.Ident)
+		return ok && w.Use(id) == types.Object(param)
+	}
+	n := r.ExitsNeed(cb, "entry put into the memtable", selCall(put), 0, exitAll)
+	r.Exists(n >= 1, cb, "replay callback exits", nil, "the replay callback has no exit")
+	for _, s := range cb.Sites(selCall(put)) {
+		call := s.(*ast.CallExpr)
+		if len(call.Args) != 2 {
+			continue
+		}
+		r.Check(isEntry(call.Args[0]) && w.fieldOf(call.Args[0]) == w.Field("badger.Entry.Key"), cb, "put under the entry's own key", s, "Skiplist.Put is given "+short(w, call.Args[0])+" as key")
+		// field coverage of the value struct
+		cl, _ := unparen(w.Origin(cb, call.Args[1])).(*ast.CompositeLit)
+		want := map[string]*types.Var{"Value": w.Field("badger.Entry.Value"), "Meta": w.Field("badger.Entry.meta"), "UserMeta": w.Field("badger.Entry.UserMeta"), "ExpiresAt": w.Field("badger.Entry.ExpiresAt")}
+		got := map[string]bool{}
+		if cl != nil {
+			for _, el := range cl.Elts {
+				if kv, ok := el.(*ast.KeyValueExpr); ok {
+					if id, ok := kv.Key.(*ast.Ident); ok {
+						if fld, wanted := want[id.Name]; wanted && isEntry(kv.Value) && w.fieldOf(kv.Value) == fld {
+							got[id.Name] = true
+						}
+					}
+				}
+			}
+		}
+		for name := range want {
+			r.Check(got[name], cb, "replayed value struct carries "+name, s, "the value struct put back does not take "+name+" from the replayed entry")
+		}
+	}
+}
+
 func propC16(c *Check) {
+	ruleR16_6(c)
 	ruleR16_5(c)
 	ruleR16_1(c)
 	ruleR16_2(c)
